@@ -97,6 +97,18 @@ func NewHolder() Holder { return Holder{} }
 func NewPHolder() *Holder { return &Holder{} }
 
 type I2 interface{ M() }
+
+type One struct{ A int }
+
+type Ünit struct{ A int }
+
+func NewÜnit() Ünit { return Ünit{} }
+
+func UseÜnit(Ünit) *One { return nil }
+
+type ünit2 struct{ A int }
+
+func newünit2() *ünit2 { return nil }
 `
 
 // c20Conf is a helper package that does not depend on Wire.
@@ -212,11 +224,11 @@ var c20Item = []string{
 	"wire.NewSet(xconf.SuperSet)", "wire.NewSet(xconf.OKSet, xconf.TwoSet)",
 }
 
-var c20StructArg0 = []string{"new(xconf.Dup)", "new(xconf.Unexp)", "new(xconf.T)", "new(conf.Dup)", "new(conf.Unexp)", "new(conf.T)", "new(conf.G[int])", "new(S)", "(new(S))", "&S{}", "(*S)(nil)", "new(struct{ A int })", "new(G[int])", "new(Pair[int, string])", "new(int)", "new(*S)", "nil", "S{}", "new(I)", "new(F)", "ps", "NewPS()", "new(T)", "new(C)", "&struct{ A int }{}", "x", "new(wire.ProviderSet)", "new([]S)", "new(map[string]S)", "interface{}(new(S))", "any(nil)", "Gen[*S]()"}
+var c20StructArg0 = []string{"new(One)", "new(Ünit)", "new(xconf.Dup)", "new(xconf.Unexp)", "new(xconf.T)", "new(conf.Dup)", "new(conf.Unexp)", "new(conf.T)", "new(conf.G[int])", "new(S)", "(new(S))", "&S{}", "(*S)(nil)", "new(struct{ A int })", "new(G[int])", "new(Pair[int, string])", "new(int)", "new(*S)", "nil", "S{}", "new(I)", "new(F)", "ps", "NewPS()", "new(T)", "new(C)", "&struct{ A int }{}", "x", "new(wire.ProviderSet)", "new([]S)", "new(map[string]S)", "interface{}(new(S))", "any(nil)", "Gen[*S]()"}
 
-var c20Names = []string{"", `"A"`, `"*"`, "k", "star", "names...", "`A`", `"A", "A"`, `""`, `"a"`, `"A" + ""`, "string(k)", `"A", "B"`, `"B", "A"`, `"*", "A"`, `"A", "*"`, `"V"`, `"Key"`, `"C"`, "fieldName()", `k, "B"`, `"\x41"`, `"A "`, "[]string{\"A\"}...", "nil...", `"*", "*"`, "`*`"}
+var c20Names = []string{`"V", "V"`, `"A", "A", "A"`, `"B", "B"`, "", `"A"`, `"*"`, "k", "star", "names...", "`A`", `"A", "A"`, `""`, `"a"`, `"A" + ""`, "string(k)", `"A", "B"`, `"B", "A"`, `"*", "A"`, `"A", "*"`, `"V"`, `"Key"`, `"C"`, "fieldName()", `k, "B"`, `"\x41"`, `"A "`, "[]string{\"A\"}...", "nil...", `"*", "*"`, "`*`"}
 
-var c20FieldsArg0 = []string{"new(xconf.Dup)", "new(*xconf.Unexp)", "new(*xconf.T)", "new(conf.Dup)", "new(*conf.Unexp)", "new(conf.T)", "new(*conf.T)", "new(S)", "new(*S)", "new(**S)", "new(*int)", "new(int)", "nil", "&S{}", "new(G[int])", "new(*G[int])", "new(struct{ A int })", "new(*struct{ A int })", "new(I)", "ps", "&ps", "new(T)", "new(*T)", "(**S)(nil)", "new(Pair[int, string])", "new([]S)", "x", "any(new(S))"}
+var c20FieldsArg0 = []string{"new(One)", "new(*Ünit)", "new(xconf.Dup)", "new(*xconf.Unexp)", "new(*xconf.T)", "new(conf.Dup)", "new(*conf.Unexp)", "new(conf.T)", "new(*conf.T)", "new(S)", "new(*S)", "new(**S)", "new(*int)", "new(int)", "nil", "&S{}", "new(G[int])", "new(*G[int])", "new(struct{ A int })", "new(*struct{ A int })", "new(I)", "ps", "&ps", "new(T)", "new(*T)", "(**S)(nil)", "new(Pair[int, string])", "new([]S)", "x", "any(new(S))"}
 
 var c20BindArg0 = []string{"new(xconf.I)", "new(conf.I)", "new(I)", "new(S)", "nil", "(*I)(nil)", "new(*I)", "I(nil)", "new(interface{ M() })", "new(any)", "new(error)", "x", "new(F)", "new(G[int])", "&ps", "new(int)"}
 var c20BindArg1 = []string{"new(xconf.C)", "new(*xconf.T)", "new(xconf.T)", "new(conf.C)", "new(*conf.T)", "new(C)", "new(*S)", "new(S)", "C{}", "nil", "(*C)(nil)", "new(I)", "new(**S)", "new(G[int])", "&C{}", "new(*C)", "x", "new(*G[int])", "new(Pair[int, string])", "new(F)", "ps", "new(int)", "NewC()"}
@@ -232,6 +244,7 @@ var c20Results = [][2]string{
 	{"func()", "nil"}, {"func(int) string", "nil"}, {"I", "nil"}, {"any", "nil"}, {"interface{}", "nil"}, {"struct{}", "struct{}{}"}, {"struct{ A int }", "struct{ A int }{}"},
 	{"G[int]", "G[int]{}"}, {"*G[int]", "nil"}, {"Pair[int, string]", "Pair[int, string]{}"}, {"F", "nil"}, {"T", "T{}"}, {"error", "nil"}, {"[]S", "nil"}, {"**S", "nil"}, {"*int", "nil"},
 	{"rune", "0"}, {"byte", "0"}, {"int8", "0"}, {"uint64", "0"}, {"float32", "0"}, {"*[2]int", "nil"}, {"map[S]*S", "nil"}, {"[][]int", "nil"}, {"interface{ M() }", "nil"}, {"*unsafe.Pointer", "nil"},
+	{"Ünit", "Ünit{}"}, {"*Ünit", "nil"}, {"[]Ünit", "nil"}, {"*ünit2", "nil"}, {"One", "One{}"},
 	{"MyInt", "0"}, {"MyStr", `""`}, {"MyBool", "false"}, {"MyFloat", "0"}, {"MyComplex", "0"}, {"MyPtr", "nil"}, {"MySlice", "nil"}, {"MyArr", "MyArr{}"}, {"MyMap", "nil"}, {"MyChan", "nil"}, {"MyIface", "nil"}, {"MyUnsafe", "nil"}, {"MyStruct", "MyStruct{}"}, {"AliasInt", "0"}, {"AliasS", "S{}"},
 }
 
@@ -303,6 +316,10 @@ var c20Injectors = []string{
 	"func Inject() I { panic(wire.Build(wire.Value(C{}), wire.Bind(new(I), new(C)))) }",
 	"func Inject() I2 { panic(wire.Build(wire.InterfaceValue(new(I), C{}), wire.Bind(new(I2), new(I)))) }",
 	"func Inject(c C) I { panic(wire.Build(wire.Bind(new(I), new(C)))) }",
+	"func Inject() *One { panic(wire.Build(NewÜnit, UseÜnit)) }",
+	"func Inject(Ünit) *One { panic(wire.Build(UseÜnit)) }",
+	"func Inject(Ünit, *ünit2) *One { panic(wire.Build(UseÜnit)) }",
+	"func Inject() (*One, error) { panic(wire.Build(wire.Value(Ünit{A: 1}), UseÜnit)) }",
 	"func Inject(h Holder) I { panic(wire.Build(wire.FieldsOf(new(Holder), \"C\"), wire.Bind(new(I), new(C)))) }",
 	"func Inject() I2 { panic(wire.Build(NewC, wire.Bind(new(I), new(C)), wire.Bind(new(I2), new(I)))) }",
 	"func Inject() I { panic(wire.Build(wire.Struct(new(S), \"*\"), NewInt, NewStr, wire.Bind(new(I), new(*S)))) }",
